@@ -137,8 +137,15 @@ class Drawer(AbstractMLE):
 
         self.logger.info("Drawer complete")
 
-    def samples_from(self, model, search_internal):
-        search_internal_dict = self.paths.load_search_internal()
+        return search_internal
+
+    def samples_from(self, model, search_internal=None):
+        # paths that keep nothing on disk (database, null) cannot hand the draws back
+        search_internal_dict = (
+            search_internal
+            if search_internal is not None
+            else self.paths.load_search_internal()
+        )
 
         parameter_lists = search_internal_dict["parameter_lists"]
         log_posterior_list = search_internal_dict["log_posterior_list"]
